@@ -274,7 +274,10 @@ class FakeSock(object):
 
   def connect(self, addr):
     net = self.net
-    c = Conn(net, len(net.conns), (addr[0], addr[1]))
+    host = addr[0]
+    if isinstance(host, (bytes, bytearray)):
+      host = bytes(host).decode('idna')      # a real socket accepts a bytes host name
+    c = Conn(net, len(net.conns), (host, addr[1]))
     net.conns.append(c)
     self.conn = c
     fk = self._io('connect')
